@@ -225,6 +225,20 @@ func (m *machine) step() {
 				n := m.ev("ack-issued", c.idx, "")
 				go func() { m.eng.NotifyAcks([]int64{c.id}); m.ev("ack-delivered", c.idx, fmt.Sprint(n)) }()
 			}},
+			action{fmt.Sprintf("ackbatch(%d)", c.idx), func() {
+				// one msgs_ack carrying several ids, as servers batch them: ids nobody
+				// waits for (unknown, or of calls that already completed) around this one
+				batch := []int64{777001}
+				for _, o := range m.calls {
+					if o != c && o.started && o.returned {
+						batch = append(batch, o.id)
+					}
+				}
+				batch = append(batch, c.id, 777002)
+				m.classes["batched-ack"] = true
+				n := m.ev("ack-issued", c.idx, fmt.Sprint(batch))
+				go func() { m.eng.NotifyAcks(batch); m.ev("ack-delivered", c.idx, fmt.Sprint(n)) }()
+			}},
 			action{fmt.Sprintf("result(%d)", c.idx), func() {
 				m.ev("result-issued", c.idx, "valid")
 				go func() {
